@@ -248,8 +248,13 @@ fn c04(args: &[String]) {
         for _ in 0..readers {
             let e = engine.clone(); let stop = stop.clone(); let torn = torn.clone(); let reads = reads.clone();
             hs.push(tokio::spawn(async move {
+                let mut round = 0u64;
                 while !stop.load(Ordering::Relaxed) {
+                    round += 1;
                     let t = e.clone().tracked().await;
+                    // every other round the snapshot is used through a CLONE that outlives the original
+                    // handle (as when a tracked engine is moved into spawned tasks): it must pin the snapshot too
+                    let t = if round % 2 == 0 { let c = t.clone(); drop(t); tokio::task::yield_now().await; c } else { t };
                     let d = query_node(&t, Node { kind: Kind::Normal, idx: 0 }).await;
                     // also verify the query the writer reads back (a reader that runs at the new
                     // timestamp over the old inputs would leave a stale verified value behind: F6)
@@ -285,7 +290,7 @@ fn c04(args: &[String]) {
         stop.store(true, Ordering::Relaxed);
         for h in hs { let _ = h.await; }
         // pinned snapshot
-        let pinned = engine.clone().tracked().await;
+        let pinned = { let orig = engine.clone().tracked().await; let c = orig.clone(); drop(orig); c };   // a clone, the original handle is gone
         let before = query_node(&pinned, Node { kind: Kind::Input, idx: 0 }).await;
         let e2 = engine.clone();
         let writer = tokio::spawn(async move { let mut s = e2.input_session().await; s.set_input(Var(0), -5).await; s.set_input(Var(1), -5).await; s.commit().await; });
